@@ -9,7 +9,8 @@ RULE = ("values of every scalar kind and containers nested to depth 4 in every l
         "print statements, interleaved with every other statement kind (declarations, assignments, calls, conditionals, "
         "loops, blocks) which must not write; printing nil or a function at top level and nested. Output is compared "
         "byte for byte (record entries up to order) with the Lean model and the structured semantics. "
-        "Non-trivial: a container of depth >= 2 or a shared sub-container is printed.")
+        "Non-trivial: a container of depth >= 2 or a shared sub-container is printed."
+        ' Number-representations family: 2^63, 2^64, 10^19, 10^21, 10^40, four ways to minus zero, tiny products, 30 factorials; alone, in lists, in records, doubled, through _স্ট্রিং and back.')
 ASSUMPTIONS = ["record entry order is unspecified; outputs are matched up to permutation of entries", "see C09 for number text"]
 default_compare = lambda m, i: C.compare_run(m, i)
 
@@ -115,6 +116,28 @@ def cases(rng, tier, stats):
             out.append(prog_case("print-with-effects", prog, info={"shape": k, "statement": stmt}))
             ne += 1
     stats["print_with_effects"] = ne
+    # number representations: whole numbers at and beyond the 64-bit integer range, minus zero (literal, product, negation,
+    # remainder), 17-digit fractions, very small and very large magnitudes — printed alone, inside lists and records, nested,
+    # through both print statements, as literal and as the result of arithmetic on variables
+    big = [("2^63", G.num(2 ** 63)), ("2^63+2048", G.num(2 ** 63 + 2048)), ("-2^63-2048", G.num(-(2 ** 63) - 2048)), ("2^64", G.num(2 ** 64)), ("10^19", G.num(10 ** 19)),
+           ("95*10^17", G.num(95 * 10 ** 17)), ("10^21", G.num(10 ** 21)), ("10^22+", G.num("12345678901234567890123")), ("10^40", G.num(10 ** 40)), ("2^53+1", G.num(2 ** 53 + 1)),
+           ("minus-zero-literal", G.un("-", G.num(0))), ("minus-zero-product", G.bin_("*", G.num(0), G.num(-1))), ("minus-zero-remainder", G.bin_("%", G.num(-6), G.num(3))),
+           ("minus-zero-quotient", G.bin_("/", G.grp(G.bin_("-", G.num(2), G.num(2))), G.num(-5))), ("square", G.bin_("*", G.num(4 * 10 ** 10), G.num(4 * 10 ** 10))),
+           ("tiny", G.num("0.0000001")), ("tiny-product", G.bin_("*", G.num("0.00001"), G.num("0.00001"))), ("17-digits", G.num("0.30000000000000004")),
+           ("huge-quotient", G.bin_("/", G.num(10 ** 25), G.num(3))), ("-10^19", G.un("-", G.num(10 ** 19)))]
+    nb = 0
+    for tag, e in big:
+        for stmt in ("print", "printn"):
+            prog = [("decl", "মান", e), (stmt, G.var("মান")), ("print", G.s("")), (stmt, e), ("print", G.s("")), (stmt, G.lst(G.var("মান"), G.un("-", G.var("মান")), G.num(2))),
+                    ("print", G.s("")), (stmt, G.rec((G.s("k"), G.lst(G.var("মান"))))), ("print", G.s("")), (stmt, G.bin_("*", G.var("মান"), G.num(2))), ("print", G.s("")),
+                    ("print", G.bin_("+", G.s("<"), G.bin_("+", G.call("_স্ট্রিং", G.var("মান")), G.s(">")))), ("print", G.bin_("==", G.call("_সংখ্যা", G.call("_স্ট্রিং", G.var("মান"))), G.var("মান")))]
+            out.append(prog_case("number-representations", prog, info={"number": tag, "statement": stmt}))
+            nb += 1
+    fact = [("decl", "গুণফল", G.num(1)), ("decl", "ক", G.num(1)),
+            ("loop", [("if", [(G.bin_(">", G.var("ক"), G.num(30)), [("break",)])], None), ("assign", "গুণফল", [], G.bin_("*", G.var("গুণফল"), G.var("ক"))),
+                      ("print", G.var("গুণফল")), ("printn", G.lst(G.var("গুণফল"))), ("print", G.s("")), ("assign", "ক", [], G.bin_("+", G.var("ক"), G.num(1)))])]
+    out.append(prog_case("number-representations", fact, info={"number": "factorials to 30!"}))
+    stats["number_representation_programs"] = nb + 1
     stats["programs"] = n
     stats["with_depth_ge_2"] = deep
     return out
